@@ -119,6 +119,13 @@ void femm::FemmProblem::writeProblemDescription(std::ostream &output) const
     output.width(12);
     output << "[PrevType]" << "  =  " << PrevType << "\n";
 
+    if (filetype == FileType::HeatFlowFile)
+    {
+        // time step of a transient heat flow problem
+        output.width(12);
+        output << "[dT]" << "  =  " << dT << "\n";
+    }
+
     std::string commentString (comment);
     // escape line-breaks
     size_t pos = commentString.find('\n');
